@@ -28,6 +28,7 @@ import (
 	"strings"
 
 	"elaverif/harness/hx"
+	"elaverif/harness/runop"
 
 	"github.com/elastos/Elastos.ELA/account"
 	"github.com/elastos/Elastos.ELA/blockchain"
@@ -171,6 +172,17 @@ func oracle(t []string, out string) *hx.Violation {
 			return &hx.Violation{Kind: "address-roundtrip", Detail: "ToAddress does not parse back to the program hash: " + out}
 		}
 	case "wrun":
+		if out == "ok" { // accepted: must also be justified by the signature matrix (independent classifiers)
+			r := parseRun(t)
+			if len(r.Hs) != len(r.Ps) {
+				return &hx.Violation{Kind: "accept-count", Detail: "accepted with different numbers of hashes and programs"}
+			}
+			for i, h := range r.Hs {
+				if v := judgePair(r, h, i); v != nil {
+					return v
+				}
+			}
+		}
 		if out != "ok" {
 			k := "wallet-rejected"
 			if len(t) > 1 && strings.HasPrefix(t[len(t)-1], "#n>16") {
@@ -184,6 +196,11 @@ func oracle(t []string, out string) *hx.Violation {
 				Detail: "the wallet creates an m-of-n account (address) whose script its own signing code and the node's verifier reject: " + out}
 		}
 	case "wtx":
+		if out == "ok" {
+			if v := runop.JudgeTx(parseTxsig(t)); v != nil {
+				return v
+			}
+		}
 		if out != "ok" {
 			return &hx.Violation{Kind: "wallet-rejected-tx",
 				Detail: "a transaction spending several wallet accounts, signed by Client.Sign, does not pass checkTransactionSignature: " + out}
